@@ -32,6 +32,8 @@ pub struct TraceInfo {
 impl TraceInfo {
     /// Smallest allowed execution trace length; currently set at 8.
     pub const MIN_TRACE_LENGTH: usize = 8;
+    /// Largest allowed execution trace length; currently set at 2^31.
+    pub const MAX_TRACE_LENGTH: usize = 1 << 31;
     /// Maximum number of columns in an execution trace (across all segments); currently set at 255.
     pub const MAX_TRACE_WIDTH: usize = 255;
     /// Maximum number of bytes in trace metadata; currently set at 65535.
@@ -49,7 +51,7 @@ impl TraceInfo {
     /// # Panics
     /// Panics if:
     /// * Trace width is zero or greater than 255.
-    /// * Trace length is smaller than 8 or is not a power of two.
+    /// * Trace length is smaller than 8, greater than 2^31, or is not a power of two.
     pub fn new(width: usize, length: usize) -> Self {
         Self::with_meta(width, length, vec![])
     }
@@ -61,7 +63,7 @@ impl TraceInfo {
     /// # Panics
     /// Panics if:
     /// * Trace width is zero or greater than 255.
-    /// * Trace length is smaller than 8 or is not a power of two.
+    /// * Trace length is smaller than 8, greater than 2^31, or is not a power of two.
     /// * Length of `meta` is greater than 65535;
     pub fn with_meta(width: usize, length: usize, meta: Vec<u8>) -> Self {
         assert!(width > 0, "trace width must be greater than 0");
@@ -77,7 +79,7 @@ impl TraceInfo {
     /// Panics if:
     /// * The width of the first trace segment is zero.
     /// * Total width of all trace segments is greater than 255.
-    /// * Trace length is smaller than 8 or is not a power of two.
+    /// * Trace length is smaller than 8, greater than 2^31, or is not a power of two.
     /// * A zero entry in auxiliary segment width array is followed by a non-zero entry.
     /// * Number of random elements for the auxiliary trace segment of non-zero width is set to
     ///   zero.
@@ -100,6 +102,12 @@ impl TraceInfo {
         assert!(
             trace_length.is_power_of_two(),
             "trace length must be a power of two, but was {trace_length}"
+        );
+        assert!(
+            trace_length <= Self::MAX_TRACE_LENGTH,
+            "trace length cannot be greater than {}, but was {}",
+            Self::MAX_TRACE_LENGTH,
+            trace_length
         );
         assert!(
             trace_meta.len() <= Self::MAX_META_LENGTH,
